@@ -10,7 +10,7 @@ from __future__ import annotations
 
 import ast
 import re
-from typing import List, Optional, Set, Tuple
+from typing import Dict, List, Optional, Set, Tuple
 
 from jinja2 import nodes as J
 
@@ -43,6 +43,9 @@ def order_of(eng, f: FuncInfo, it: ast.AST, defs: Defs, depth: int = 0) -> Tuple
                 return "other:sorted without key", base
             if key_is_field_id(key, eng, f):
                 return "sorted", base
+            ck = const_key_for_fields(key, eng)
+            if ck:
+                return "constkey:" + ck, base
             return "other:sort key %s is not field_id" % norm(key, 50), base
         if d in ("list", "tuple", "iter") and it.args:
             return order_of(eng, f, it.args[0], defs, depth)
@@ -88,6 +91,20 @@ def order_of(eng, f: FuncInfo, it: ast.AST, defs: Defs, depth: int = 0) -> Tuple
         if step is not None:
             return "other:sliced with a step", it.value
     return "declared", it
+
+
+def const_key_for_fields(key: ast.AST, eng) -> Optional[str]:
+    """key = lambda n: getattr(n, "<attr>", <default>) where a struct field has no such attribute: the key is the default for
+    every field, the (stable) sort leaves them as they were"""
+    if not (isinstance(key, ast.Lambda) and len(key.args.args) == 1):
+        return None
+    b, p = key.body, key.args.args[0].arg
+    if isinstance(b, ast.Call) and dotted(b.func) == "getattr" and len(b.args) == 3 and isinstance(b.args[0], ast.Name) and b.args[0].id == p and isinstance(b.args[1], ast.Constant) and isinstance(b.args[2], ast.Constant):
+        attr = str(b.args[1].value)
+        ci = eng.prog.classes.get(SF)
+        if ci is not None and attr not in ci.ann_fields and attr not in ci.methods:
+            return "the sort key getattr(.., %r, %r) is the same constant for every struct field (%s has no attribute %r): the stable sort leaves the fields in declaration order" % (attr, b.args[2].value, ci.name, attr)
+    return None
 
 
 def helper_order(eng, f: FuncInfo, it: ast.AST):
@@ -195,6 +212,7 @@ def run(eng, rep) -> None:
     )
     rep.rule("R15.1", "every wire-order-relevant iteration over a struct's fields is in ascending field_id")
     rep.rule("R15.3", "the order of a struct's fields is computed from that struct on every use (no module-level cache keyed by name)")
+    rep.rule("R15.5", "a sort applied to struct fields has a key that the fields actually carry (a getattr default that every field falls back to sorts nothing)")
     rep.rule("R15.2", "the run-time C++ codec iterates the reflected field vector front to back, unsorted (order = Struct.reflection's)")
     rep.rule("R15.4", "generated C++ struct codec, typed AST of the instance for a model struct declared fb@1, fa@0, fc@2: Encode/Decode (and a decoding constructor, in member declaration order) touch the buffer in ascending field id; no unsequenced buffer accesses")
     rep.assume("dict-insertion order, list order and sorted() stability as specified by Python; jinja2's sort filter sorts ascending by the named attribute")
@@ -213,6 +231,22 @@ def run(eng, rep) -> None:
     n_rel = 0
     seen_cache = set()
     inventory = []
+    # parameters that receive a struct's field list at some call site (a shared helper that lists "nodes" of any kind)
+    field_params: Dict[str, Dict[str, List[FuncInfo]]] = {}
+    for f0 in prog.functions.values():
+        ft0 = None
+        for cs in cg.sites_in(f0):
+            if len(cs.callees) != 1 or cs.how == "by-name" or cs.callees[0] not in prog.functions:
+                continue
+            g0 = prog.functions[cs.callees[0]]
+            gps = [p.arg for p in g0.params]
+            off = 1 if (g0.cls is not None and gps and gps[0] in ("self", "cls") and isinstance(cs.node.func, ast.Attribute)) else 0
+            for i_, a_ in enumerate(cs.node.args):
+                if isinstance(a_, ast.Starred) or i_ + off >= len(gps):
+                    break
+                ft0 = ft0 or T.fn(f0)
+                if is_field_list(ft0.of(a_)):
+                    field_params.setdefault(g0.qual, {}).setdefault(gps[i_ + off], []).append(f0)
     for f in prog.functions.values():
         ft = T.fn(f)
         defs = None
@@ -254,7 +288,8 @@ def run(eng, rep) -> None:
                         else:
                             rep.undecided("R15.1", f.file, f.qual, site, "iteration order is produced by helper %s in a form not decided (%s)" % (hq, horder))
                     continue
-                if not is_field_list(bt):
+                via = field_params.get(f.qual, {}).get(base.id) if isinstance(base, ast.Name) else None
+                if not is_field_list(bt) and not via:
                     # sorted(...) result assigned to a local first
                     if not (isinstance(base, ast.Name) and is_field_list(ft.of(it))):
                         if not is_field_list(ft.of(it)):
@@ -273,6 +308,8 @@ def run(eng, rep) -> None:
                         break
                 if why is None and f.name == "reflection" and f.qual in refl_reach:
                     why = "builds the reflected field list iterated by the run-time C++ codec"
+                if why is None and via and any(c_.name == "reflection" and c_.qual in refl_reach for c_ in via):
+                    why = "lists the struct fields handed over by %s, which builds the reflected field list iterated by the run-time C++ codec" % via[0].qual
                 site = "%s %s over %s" % (kind, norm(it, 80), norm(base, 40))
                 inventory.append({"function": f.qual, "iter": norm(it, 80), "order": order, "relevant": bool(why)})
                 if why is None:
@@ -281,6 +318,8 @@ def run(eng, rep) -> None:
                 n_rel += 1
                 if order == "sorted":
                     rep.ok("R15.1", f.file, f.qual, site, "ascending field_id; " + why)
+                elif order.startswith("constkey:"):
+                    rep.violation("R15.5", f.file, f.qual, site, "%s, not ascending field_id (%s)" % (order[9:], why))
                 elif order == "declared":
                     rep.violation("R15.1", f.file, f.qual, site, "fields are serialised in declaration order, not ascending field_id (%s)" % why)
                 else:
